@@ -17,6 +17,7 @@ import (
 )
 
 type world struct {
+	extra      int
 	lastMethod string
 	log        []string // call log of the request in flight: interceptor names, then "T<k>"
 	calls      int
@@ -281,6 +282,18 @@ func ops() []op {
 			w.https[s].SetHTTPClient(&c)
 			return ""
 		}},
+		{"replace the Transport of the current client, then SetHTTPClient(same client)", func(w *world, s int) string {
+			c := w.https[s].GetHTTPClient()
+			for k, h := range w.https {
+				if k != s && h.GetHTTPClient() == c {
+					return "" // a client shared with the other instance: overwriting its Transport is the caller cutting that instance off
+				}
+			}
+			w.extra++
+			c.Transport = &stubT{w, 10 + w.extra}
+			w.https[s].SetHTTPClient(c)
+			return ""
+		}},
 		{"Get", func(w *world, s int) string { return w.request(s, "Get") }},
 		{"Post", func(w *world, s int) string { return w.request(s, "Post") }},
 		{"API-Get", func(w *world, s int) string { return w.request(s, "API") }},
@@ -458,6 +471,74 @@ func defaultConstructors(r *lib.Report) int64 {
 	return n
 }
 
+// nestedRequests: an interceptor that itself makes a request through the same SimpleHTTP (a token refresh,
+// an audit call): the inner request passes the whole chain too, then the outer one continues.
+func nestedRequests(r *lib.Report) int64 {
+	var n int64
+	for pos := 0; pos < 3; pos++ { // position of the nesting interceptor among three
+		var log []string
+		var h *network.SimpleHTTPDef
+		nested := false
+		mk := func(name string) *network.Interceptor {
+			var ic network.Interceptor = func(req *http.Request) error { log = append(log, name); return nil }
+			return &ic
+		}
+		var nest network.Interceptor = func(req *http.Request) error {
+			log = append(log, "nest")
+			if !nested {
+				nested = true
+				if err := h.Head("http://api.test/inner").Err; err != nil {
+					log = append(log, "inner-error:"+err.Error())
+				}
+			}
+			return nil
+		}
+		var ics []*network.Interceptor
+		var names []string
+		plain := []string{"a", "b"}
+		for i := 0; i < 3; i++ {
+			if i == pos {
+				ics, names = append(ics, &nest), append(names, "nest")
+			} else {
+				ics, names = append(ics, mk(plain[0])), append(names, plain[0])
+				plain = plain[1:]
+			}
+		}
+		fail := ""
+		p := lib.Catch(func() {
+			h = network.NewSimpleHTTPWithClientAndInterceptors(&http.Client{Transport: roundTripFunc(func(req *http.Request) (*http.Response, error) {
+				log = append(log, "T:"+req.Method)
+				return &http.Response{StatusCode: 200, Status: "200 OK", Proto: "HTTP/1.1", ProtoMajor: 1, ProtoMinor: 1, Header: http.Header{}, Body: http.NoBody, Request: req}, nil
+			})}, ics...)
+			for round := 0; round < 2; round++ {
+				log, nested = nil, false
+				n++
+				if err := h.Get("http://api.test/outer").Err; err != nil {
+					fail = "outer request failed: " + err.Error()
+					return
+				}
+				var want []string
+				want = append(want, names[:pos+1]...) // outer chain up to and including the nesting interceptor
+				want = append(want, names...)         // the inner request: the whole chain
+				want = append(want, "T:HEAD")
+				want = append(want, names[pos+1:]...) // the outer chain continues
+				want = append(want, "T:GET")
+				if fmt.Sprint(log) != fmt.Sprint(want) {
+					fail = fmt.Sprintf("interceptors %v, the one called nest makes a HEAD request through the same instance: call log %v, want %v", names, log, want)
+					return
+				}
+			}
+		})
+		if p != "" {
+			fail = "panic: " + p
+		}
+		if fail != "" {
+			r.Violation("C18|nested-request|wrong-interceptors", fail, map[string]interface{}{"nesting_position": pos})
+		}
+	}
+	return n
+}
+
 type roundTripFunc func(req *http.Request) (*http.Response, error)
 
 func (f roundTripFunc) RoundTrip(req *http.Request) (*http.Response, error) { return f(req) }
@@ -497,6 +578,7 @@ func main() {
 		os.WriteFile(f, []byte(strings.Join(ks, "\n")), 0644)
 	}
 	trans += defaultConstructors(r)
+	trans += nestedRequests(r)
 	r.Cov["states"] = len(seen)
 	r.Cov["transitions"] = trans
 	r.Cov["traces_validated_against_impl"] = trans
